@@ -570,6 +570,42 @@ def run_objects_on_files(acc):
                 w.destroy()
 
 
+def run_truthy_behind_reference(acc):
+    """A custom check grants with ANY true value and refuses with any false
+    one ("a true value, not necessarily True"): behind `rule:NAME`, at any
+    depth, the decision is the one the check itself gives."""
+    from oslo_policy import _checks
+    vals = {'yes': 'yes', 'one': 1, 'list': [0], 'true': True,
+            'empty': '', 'zero': 0, 'none': None, 'false': False}
+
+    class Truthy(_checks.Check):
+        def __call__(self, target, creds, enforcer, current_rule=None):
+            return vals[self.match]
+    _checks.register('vtruthy', Truthy)
+    for k, v in vals.items():
+        rules = {'leaf': 'vtruthy:%s' % k, 'via': 'rule:leaf',
+                 'via2': 'rule:via', 'nvia': 'not rule:leaf',
+                 'mixed': 'role:nobody or rule:via2',
+                 'both': 'rule:leaf and rule:via'}
+        enf = world.bare_enforcer()
+        world.set_rules(enf, rules)
+        acc.case('S4', True)
+        for name in rules:
+            want = bool(v) != (name == 'nvia')
+            acc.ev()
+            got = world.decide(enf, name, {}, {'roles': []})
+            if got != ('ok', want):
+                acc.violation(
+                    'S4|truthy-behind-reference|%s' % ('allows' if got ==
+                                                       ('ok', True) else
+                                                       'denies' if got[0] ==
+                                                       'ok' else got[1]),
+                    'a check returning %r, asked for as %s (%r): %r, '
+                    'expected %r' % (v, name, rules[name], got, want),
+                    {'value': repr(v), 'name': name}, want, got, 'S4')
+            acc.outcome('truthy-%s' % want)
+
+
 def run_registered_not_in_force(acc):
     """A name that is REGISTERED as a default but not in force: the enforcer
     takes its rules from set_rules()/the constructor only (use_conf off), so
@@ -619,6 +655,7 @@ def run_current_rule(acc):
     run_reentrant(acc, enf)
     run_objects_on_files(acc)
     run_registered_not_in_force(acc)
+    run_truthy_behind_reference(acc)
     # parents are evaluated before the subclasses, and once more after them
     for kind in ('vrec4', 'vrec3', 'vrec43', 'vrec34', 'vrec4', 'vrec3',
                  'vrec4n', 'vrec4r', 'vduck4', 'vduck3'):
